@@ -1747,8 +1747,10 @@ void CheckCondition::checkInvalidTestForOverflow()
                 const Token * const other = expr->astSibling();
 
                 // x [+-] c cmp x
+                // an unsigned operand may be zero: then "x + c > x" and "x + c <= x" (and their counterparts for '-') depend on c
+                const bool zeroSensitive = (lhs->str() == "+") ? (cmp == ">" || cmp == "<=") : (cmp == "<" || cmp == ">=");
                 if ((other->isNumber() && other->hasKnownIntValue() && other->getKnownIntValue() > 0) ||
-                    (!other->isNumber() && other->valueType() && other->valueType()->isIntegral() && other->valueType()->sign == ValueType::Sign::UNSIGNED)) {
+                    (!zeroSensitive && !other->isNumber() && other->valueType() && other->valueType()->isIntegral() && other->valueType()->sign == ValueType::Sign::UNSIGNED)) {
                     bool result;
                     if (lhs->str() == "+")
                         result = (cmp == ">" || cmp == ">=");
